@@ -1,2 +1,3 @@
+CONSTANT Pool = 1
 INIT Init
 NEXT Next
